@@ -13,6 +13,7 @@ import LbfgsbVerif.Model.Cauchy
 import LbfgsbVerif.Model.Subspace
 import LbfgsbVerif.Model.FD
 import LbfgsbVerif.Model.Dcsrch
+import LbfgsbVerif.Model.Utils
 import Std.Data.HashMap
 
 open Lbfgsb
@@ -331,6 +332,9 @@ def handleShell (c : Ctx) (toks : List String) : Option (Ctx × List String) :=
     let pairs := ans.map fun v => (v.getD 0 0.0, v.getD 1 0.0)
     let tr := Dcsrch.trace (Dcsrch.DC.new ftol gtol xtol stpmin stpmax) stp0 .start pairs
     some (c, ["dcsrch " ++ ";".intercalate (tr.map fun (s, t) => s!"{showF s}:{taskCode t}")])
+  | ["unitscale", x, g, lb, ub] => do
+    let x ← parseV x; let g ← parseV g; let lb ← parseV lb; let ub ← parseV ub
+    some (c, [s!"unitscale {showF (unitScaling x g lb ub)}"])
   | ["filter", eps, xs, gs] => do
     let eps ← parseF eps; let X ← parseVs xs; let G ← parseVs gs
     let r := filterWolfe X G eps
